@@ -1,0 +1,15 @@
+//go:build verif
+
+package archiver
+
+// C10 safety sweep (govc `sweep`): index / slice / division expressions must not panic on
+// server-controlled input. Comment-only file.
+
+//@ func copyWithTimeout
+//@   property C10
+//@   opaque
+//@   sweep idx slice div
+//@ func copyWithTimeoutN
+//@   property C10
+//@   opaque
+//@   sweep idx slice div
